@@ -27,7 +27,7 @@ def dep_funcs(vc):
     def power3(x, a, b, c):
         return a + b * x**c
 
-    def exp3(x, a, b, c):
+    def exp3(x, a=0.1, b=0.2, c=-0.3):
         return a + b * np.exp(c * x)
 
     def lin2(x, a, b):
@@ -245,6 +245,11 @@ def dim_records(vc, case, rid0):
         with Recorder(vc) as r3, warnings.catch_warnings():
             warnings.simplefilter("ignore")
             m3.fit(data, copy.deepcopy(fitdesc))
+    except RuntimeError as e:
+        if "Failed to fit dependence function" in str(e):
+            # documented outcome of a non-converging dependence fit: nothing to judge
+            return [dict(id=rid0, kind="model", exc="", fitdesc=[], ncalls=[], calls=[], skipped=True)], 1
+        return [dict(id=rid0, kind="model", exc=f"{type(e).__name__}: {e}"[:300], fitdesc=[], ncalls=[], calls=[])], 1
     except Exception as e:  # noqa
         return [dict(id=rid0, kind="model", exc=f"{type(e).__name__}: {e}"[:300], fitdesc=[], ncalls=[], calls=[])], 1
     cond_dims = [i for i in range(nd) if st["dims"][i].get("cond") is not None]
@@ -340,6 +345,7 @@ def dim_records(vc, case, rid0):
         rec["permestdev"] = Qc(reldev(est(cd1), est(cd2)), 1e9, 0, 2 * 10**9)
         rec["permdepdev"] = Qc(reldev(depp(cd1), depp(cd2)), 1e9, 0, 2 * 10**9)
         rec["refitdepdev"] = Qc(reldev(depp(cd1), depp(cd3)), 1e9, 0, 2 * 10**9)
+        rec["refitestdev"] = Qc(reldev(est(cd1), est(cd3)), 1e9, 0, 2 * 10**9)
         recs.append(rec)
         rid += 1
     fdl = []
@@ -362,8 +368,9 @@ def gen_cases(ctx):
     for rep in range(reps):
         for si, st in enumerate(sts):
             n = int(rng.choice([300, 600, 1500, 3000] if ctx.quick else [300, 1000, 3000, 8000, 20000]))
-            if any(d.get("slicer", {}).get("kind") == "points" for d in st["dims"]):
-                n = max(n, 600)
+            for d in st["dims"]:
+                if d.get("slicer", {}).get("kind") == "points":
+                    n = max(n, 8 * d["slicer"]["n"])
             out.append(dict(st=st, si=si, n=n, style=["shuffled", "sorted"][(rep + si) % 2], seed=int(rng.integers(0, 2**31))))
     return out
 
@@ -399,7 +406,7 @@ def run(ctx):
     failing = ctx.validate("Trace_C09", "Trace_C09.cfg", allrecs, xss="512m", chunk=60)
     for r in allrecs:
         c = owner[r["id"]]
-        ctx.case(key_of(c) + f" rec={r['kind']}{r['id']}", nontrivial=(r["exc"] == ""))
+        ctx.case(key_of(c) + f" rec={r['kind']}{r['id']}", nontrivial=(r["exc"] == "" and not r.get("skipped")))
         for clause in failing.get(r["id"], []):
             extra = ""
             if r["kind"] == "dim":
